@@ -909,6 +909,15 @@ func (vc *VC) eventWrites(mapv ssa.Value, kind string, arrays map[string]bool) {
 	// ghost fields assigned by events on this map field
 	owner, field, _ := mapOwner(mapv)
 	if owner == nil {
+		for _, ev := range vc.events {
+			if ev.Kind == kind+"_local" && ev.Target == mapv.Type().String() || ev.Kind == kind+"_unowned" {
+				for _, gs := range ev.Stmts {
+					if id, ok := gs.Target.(*EIdent); ok {
+						arrays["GG_"+id.Name] = true
+					}
+				}
+			}
+		}
 		return
 	}
 	for _, ev := range vc.events {
@@ -1430,6 +1439,12 @@ func (vc *VC) step(st *State, fr *Frame, in ssa.Instruction) bool {
 		st.storeLoc(loc, st.zeroVal(el))
 		vc.initGhost(st, el, ref)
 		fr.env[x] = intv(ref)
+		if x.Comment != "" && x.Comment != "varargs" && x.Comment != "complit" && x.Comment != "makeslice" && x.Comment != "slicelit" {
+			if _, exists := fr.names[x.Comment]; !exists {
+				// an address-taken local: its name denotes the variable, addr(name) its address
+				fr.names[x.Comment] = nameEntry{V: intv(ref), T: x.Type(), IsAddr: true}
+			}
+		}
 	case *ssa.FieldAddr:
 		base := vc.value(st, fr, x.X)
 		pt := x.X.Type().Underlying().(*types.Pointer).Elem()
@@ -2031,6 +2046,23 @@ func (vc *VC) mapEvent(st *State, fr *Frame, kind string, mapv ssa.Value, ref, k
 		}
 	}
 	_ = matched
+	if ownerV == nil {
+		// "on insert_local "<go map type>"(m, k, v)": ghost bookkeeping for a local map, matched by its type
+		for _, ev := range vc.events {
+			if ev.Kind != kind+"_local" || ev.Target != mapv.Type().String() {
+				continue
+			}
+			extra := map[string]nameEntry{}
+			extra[ev.Vars[0]] = nameEntry{V: intv(ref), T: mapv.Type()}
+			if len(ev.Vars) > 1 {
+				extra[ev.Vars[1]] = nameEntry{V: Sc{key, vc.leaves(m.Key())[0].Sort}, T: m.Key()}
+			}
+			if len(ev.Vars) > 2 && val != nil {
+				extra[ev.Vars[2]] = nameEntry{V: val, T: m.Elem()}
+			}
+			vc.fireEvent(st, fr, ev, extra, pos)
+		}
+	}
 	if ownerV == nil {
 		// "on insert_unowned T.f(m, k, v)": obligations for writes to a map of that type whose owner is not syntactically known
 		for _, ev := range vc.events {
